@@ -294,7 +294,8 @@ theorem all_parse_sites_guarded :
 
 /-- module-level state that is written after import time and has been reviewed: memo caches of
 pure functions (`lru_cache`), lazily loaded Unicode tables (`__subsets_cache`, `__unicode_data`,
-also replaced by the public `install_unicode_data`), lazily built validator schemas, and the
+also replaced by the public `install_unicode_data`; `_blocks` turns a block's range string into a
+`UnicodeSubset` on first use), lazily built validator schemas, and the
 class-level token / signature tables filled by the registration decorators while the parser
 classes are being defined. -/
 def reviewedGlobals : List (String × String) :=
@@ -304,6 +305,7 @@ def reviewedGlobals : List (String × String) :=
    ("elementpath.schema_proxy", "cached_find"),
    ("elementpath.regex.unicode_subsets", "__subsets_cache"),
    ("elementpath.regex.unicode_subsets", "__unicode_data"),
+   ("elementpath.regex.unicode_subsets", "__unicode_data._blocks"),
    ("elementpath.validators.__init__", "analyzed_string_schema"),
    ("elementpath.validators.__init__", "json_to_xml_schema"),
    ("elementpath.tdop", "*.symbol_table"),
